@@ -114,6 +114,21 @@ def eligUB (e : Env) (t : Nat) : Bool :=
 def exhaustedB (e : Env) (σ : St) (t r : Nat) (i : Int) : Bool :=
   (resLimitIds e r).any (fun lid => !limitOk e σ lid i none) || (taskLimitIds e t).any (fun lid => !limitOk e σ lid i (some r))
 
+/-- decidable form of `Framed`: the first and the last slot in which the task holds time on `r` frame the reported dates -/
+def framedB (e : Env) (σ : St) (t r : Nat) : Bool :=
+  let booked := (σ.led.m.toList.filter (fun (ks : Key × Slot) => ks.1.1 == r && (usageOf ks.2.usage t).isSome)).map (fun ks => ks.1.2)
+  match booked with
+  | [] => false
+  | i0 :: rest =>
+    let fb := rest.foldl min i0
+    let last := rest.foldl max i0
+    (match (σ.tst t).start with
+      | some v => decide (e.time fb ≤ v) && decide (v ≤ e.time (fb + 1))
+      | none => false) &&
+    (match (σ.tst t).stop with
+      | some v => decide (e.time last ≤ v) && decide (v ≤ e.time (last + 1))
+      | none => false)
+
 /-- decidable form of `FwdEff` -/
 def fwdEffB (e : Env) (t : Nat) : Bool :=
   let d := e.taskD t
@@ -163,6 +178,10 @@ def runSched (j : Json) : Json :=
     !(sel.all (fun r => sumOf r / 3600 * η == (e.taskD t).effort) &&
       slots.all (fun i => sel.all (fun r =>
         usageOf (σ.led.get r i).usage t == usageOf (σ.led.get (sel.headD 0) i).usage t))))
+  -- C06.start_end_frame_bookings (both modes, single resource) and C06.team_framed (forward teams, every member)
+  let framedPairs := eligSched.map (fun t => (t, (e.taskD t).alloc.headD 0)) ++
+    (teams.filter (fun t => (σ.tst t).forward)).flatMap (fun t => (e.taskD t).alloc.map (fun r => (t, r)))
+  let framedFail := framedPairs.filter (fun tr => !framedB e σ tr.1 tr.2)
   let fwds := (List.range e.tasks.size).filter (fun t => fwdEffB e t && (σ.tst t).scheduled && (σ.tst t).forward)
   let depPairs := fwds.flatMap (fun t => ((e.taskD t).allDeps.filter (fun dp => (e.taskD dp.target).leaf)).map (fun dp => (t, dp)))
   -- milestones the loop placed (done), forward, without own start: all edges
@@ -329,6 +348,7 @@ def runSched (j : Json) : Json :=
                          ("containers", Json.num (JsonNumber.fromNat conts.length)), ("container_fail", Json.num (JsonNumber.fromNat contFail.length)),
                          ("elig", Json.num (JsonNumber.fromNat eligs.length)), ("elig_scheduled", Json.num (JsonNumber.fromNat eligSched.length)),
                          ("effort_exact_fail", Json.num (JsonNumber.fromNat effortFail.length)),
+                         ("framed_pairs", Json.num (JsonNumber.fromNat framedPairs.length)), ("framed_fail", Json.num (JsonNumber.fromNat framedFail.length)),
                          ("teams_scheduled", Json.num (JsonNumber.fromNat teams.length)), ("team_exact_fail", Json.num (JsonNumber.fromNat teamFail.length)),
                          ("one_set_fail", Json.num (JsonNumber.fromNat oneSetFail.length)),
                          ("alt_tasks", Json.num (JsonNumber.fromNat altTasks.length)), ("alt_effort_fail", Json.num (JsonNumber.fromNat altFail.length)),
